@@ -211,6 +211,40 @@ def driver_case():
 from vc.core.leanstep import lean_step as _lean_step
 
 
+
+
+def no_static_case():
+    """frame of the whole engine: no function of the engine sources (every class method and free function clang reports for
+    engine.cpp and the headers it includes, the set-up helpers and GenerateStochasticDistribution included) declares a local
+    variable with static storage - such a variable outlives the simulation, so a later run in the same process would
+    depend on the earlier ones (a std:: distribution object kept static keeps its cached deviate)"""
+    P = "C08/engine"
+
+    def run(api):
+        prog = C11.program()
+        fns = []
+        for nm, nodes in prog.functions.items():
+            fns += [(nm, n) for n in nodes]
+        for cn, c in prog.classes.items():
+            fns += [("%s::%s" % (cn, mn), m) for mn, m in c["methods"].items()]
+        api.check(P + "/functions-scanned", len(fns) >= 20, "only %d function bodies found" % len(fns))
+        found = []
+
+        def walk(n, owner):
+            if not isinstance(n, dict):
+                return
+            if n.get("kind") == "VarDecl" and n.get("storageClass") == "static":
+                found.append("%s: static %s" % (owner, n.get("name")))
+            for ch in n.get("inner", []) or []:
+                walk(ch, owner)
+        for nm, n in fns:
+            walk(n, nm)
+        api.check(P + "/no-function-local-static-in-any-engine-function", not found, "; ".join(sorted(set(found))[:5]))
+
+    return Case("engine/no-static-locals", run, functions=["every function of the engine sources (syntactic frame condition)"],
+                sym=False)
+
+
 EXTRA = [_lean_step("Schedule.lean", "C08", ["after_end", "compose_true", "unique_end"])]
 CASES = [seed_case(), driver_case()]
 # the seam: the seed and a copy of the script reach the engine, and set-up leaves the caller's script as it was (C04's cases)
@@ -218,6 +252,7 @@ from props import C04 as _C04
 for _sp in ("grid", "graph"):
     for _rm in (False, True):
         CASES.append(_C04.marshal_case(_sp, _rm))
+CASES.append(no_static_case())
 if z3 is not None:
     for _c in CLASSES:
         CASES.append(step_case(_c))
